@@ -531,7 +531,20 @@ P_Loop(acc, c, cid, lp) ==
                                !.vals = @ \cup {[cif |-> c, cid |-> cid, name |-> NormN(lp.names[i]), row |-> r, v |-> lp.rows[r][i]]
                                                  : i \in keep, r \in 1..Len(lp.rows)}],
              errs |-> errs]
-\* one block: create or reopen, store the items, then the loop, prune the container
+\* one save frame [code, items] of container pid: create or reopen (CIF_DUP_FRAMECODE), store the items, prune the frame
+P_Frame(acc, c, pid, f) ==
+    LET st == acc.st
+        M == {x \in P_ContsOf(st, c) : x.parent = pid /\ x.norm = NormC(f.code)}
+        id == IF M = {} THEN st.nextId[c] ELSE (CHOOSE x \in M : TRUE).id
+        st1 == IF M = {} THEN [st EXCEPT !.cont = @ \cup {[cif |-> c, id |-> id, parent |-> pid, norm |-> NormC(f.code), orig |-> f.code, nl |-> 0]},
+                                          !.nextId[c] = id + 1]
+               ELSE st
+        a0 == P_Items([st |-> st1, errs |-> IF M = {} THEN acc.errs ELSE Append(acc.errs, DUP_FRAMECODE)], c, id, f.items)
+        dead == {l \in P_LoopsOf(a0.st, c, id) : P_Rows(a0.st, l) = {}}
+    IN [st |-> [a0.st EXCEPT !.loops = @ \ dead], errs |-> a0.errs]
+RECURSIVE P_Frames(_, _, _, _)
+P_Frames(acc, c, pid, fs) == IF fs = <<>> THEN acc ELSE P_Frames(P_Frame(acc, c, pid, Head(fs)), c, pid, Tail(fs))
+\* one block: create or reopen, store the items, then the loop, then the save frames, prune the container
 P_Block(acc, c, b) ==
     LET st == acc.st
         M == {x \in P_ContsOf(st, c) : x.parent = 0 /\ x.norm = NormC(b.code)}
@@ -540,7 +553,8 @@ P_Block(acc, c, b) ==
                                           !.nextId[c] = id + 1]
                ELSE st
         a0 == P_Items([st |-> st1, errs |-> IF M = {} THEN acc.errs ELSE Append(acc.errs, DUP_BLOCKCODE)], c, id, b.items)
-        a1 == IF "loop" \in DOMAIN b THEN P_Loop(a0, c, id, b.loop) ELSE a0
+        a1l == IF "loop" \in DOMAIN b THEN P_Loop(a0, c, id, b.loop) ELSE a0
+        a1 == IF "frames" \in DOMAIN b THEN P_Frames(a1l, c, id, b.frames) ELSE a1l
         dead == {l \in P_LoopsOf(a1.st, c, id) : P_Rows(a1.st, l) = {}}
     IN [st |-> [a1.st EXCEPT !.loops = @ \ dead], errs |-> a1.errs]
 RECURSIVE P_Blocks(_, _, _)
@@ -551,7 +565,8 @@ P_Fits(st, c) == /\ st.nextId[c] <= MaxId + 1
 ParseR(c, d) ==
     IF ~(c \in cifs /\ ~Busy(c)) THEN Off ELSE
     LET doc == DOCS[d]
-        ok == \A i \in 1..Len(doc) : ValidC(doc[i].code) /\ \A j \in 1..Len(doc[i].items) : ValidN(doc[i].items[j][1])
+        ok == \A i \in 1..Len(doc) : /\ ValidC(doc[i].code) /\ \A j \in 1..Len(doc[i].items) : ValidN(doc[i].items[j][1])
+                                      /\ "frames" \in DOMAIN doc[i] => \A k \in 1..Len(doc[i].frames) : ValidC(doc[i].frames[k].code)
         r == P_Blocks([st |-> Cur, errs |-> <<>>], c, doc)
     IN IF ~ok \/ ~P_Fits(r.st, c) THEN Off
        ELSE On([op |-> "parse_into", cif |-> c, doc |-> d, blocks |-> doc, rc |-> OK, errs |-> r.errs], r.st)
